@@ -412,6 +412,14 @@ class E1:
                 p = V(0); off = i["coff"]
                 for v in i["var"]:
                     t = self.val(v["idx"], env, args, path)
+                    if not is_c(t) and path.lo == path.hi and not isinstance(t, Ptr) and t[0] not in ("cmp", "pint"):
+                        t = C(ev(t, path.lo), type_bits(v["idx"]["t"]) or 64)               # one input: the index is a number
+                    if not is_c(t) and path.hi - path.lo <= 64:
+                        # a lookup table indexed by (a function of) the input on a small interval: one input at a time
+                        for xv in range(path.lo, path.hi + 1):
+                            p2 = path.fork(xv, xv); env2 = self.renorm(env, xv, xv)
+                            yield from self.rest(fn, b, i.idx, env2, args, p2)
+                        return
                     if not is_c(t): raise Unsupported("variable GEP index %s" % show(t))
                     iv = t[1]; ib = t[2]
                     if iv >> (ib - 1): iv -= 1 << ib
